@@ -101,6 +101,29 @@ def c_range_table(ctx):
                 for role, slot in slots.items():
                     if slot == idx:
                         role_of_var[name] = role
+    # locals that hold the unboxed double of a variable with a role
+    fn_ast = facts.func("in_float_range")
+    for _ in range(3):
+        for x in fn_ast.walk():
+            name = rhs = None
+            if x.kind == "VarDecl" and x.ch:
+                name, rhs = x.name, x.ch[-1]
+            elif x.kind == "BinaryOperator" and x.op == "=" \
+                    and var(x.ch[0]) is not None:
+                name, rhs = var(x.ch[0]), x.ch[1]
+            if name is None or name in role_of_var:
+                continue
+            r = strip(rhs)
+            src = None
+            if r.kind == "CallExpr" and callee(r) in ("PyFloat_AS_DOUBLE",
+                                                      "PyFloat_AsDouble"):
+                src = var(r.ch[1])
+            elif r.kind == "MemberExpr" and r.name == "ob_fval":
+                src = var(r.ch[0])
+            elif var(r) is not None:
+                src = var(r)
+            if src in role_of_var and role_of_var[src] != "mask":
+                role_of_var[name] = role_of_var[src]
     if set(role_of_var.values()) != {"value", "low", "high", "mask"}:
         raise AnalysisError(f"in_float_range: could not resolve low/high/mask "
                             f"from the descriptor slots ({role_of_var})")
@@ -130,7 +153,25 @@ def c_range_table(ctx):
             bits["ex_high"] if val["ex_high"] else 0)
 
         def interp(node):
-            e = strip(node.ast)
+            return ev(node.ast)
+
+        def ev(e):
+            e = strip(e)
+            if e.kind == "ConditionalOperator" and len(e.ch) == 3:
+                c = ev(e.ch[0])
+                if c is None or isinstance(c, tuple):
+                    return c
+                return ev(e.ch[1]) if c else ev(e.ch[2])
+            if e.kind == "UnaryOperator" and e.op == "!":
+                v = ev(e.ch[0])
+                return v if v is None or isinstance(v, tuple) else not v
+            if e.kind == "BinaryOperator" and e.op in ("&&", "||"):
+                a = ev(e.ch[0])
+                if a is None or isinstance(a, tuple):
+                    return a
+                if (e.op == "&&") != bool(a):
+                    return bool(a)
+                return ev(e.ch[1])
             if e.kind == "CallExpr" and callee(e) == "PyErr_Occurred":
                 return False
             if e.kind == "BinaryOperator" and e.op in ("==", "!=", "<", "<=",
